@@ -278,3 +278,34 @@ Proof.
   - destruct (any_contains (routable (fw_conf fw)) (pk_local pkt)) eqn:EL; cbn [negb]; [|discriminate].
     intros _. now apply routable_sound.
 Qed.
+
+(* corollaries stated over the untimed conntrack *)
+Lemma drop_ct_untracked fw cs incoming pkt h pr pl :
+  aget pkt_eqb pkt cs = None -> fst (drop_ct fw cs incoming pkt h pr pl) = drop fw incoming pkt h pr pl false.
+Proof. intros. rewrite drop_ct_drop. now rewrite in_conns_untracked. Qed.
+
+Theorem conntrack_authentic fw cs incoming pkt mynets pr pl :
+  fst (drop_ct fw cs incoming pkt (hostinfo_of mynets pr) pr pl) = VAllow ->
+  remote_authentic_P mynets pr (pk_remote pkt) /\ local_authentic_P (fw_conf fw) (pk_local pkt).
+Proof.
+  intros H. rewrite drop_ct_drop in H.
+  split; [exact (remote_authentic _ _ _ _ _ _ _ _ H)|exact (local_authentic _ _ _ _ _ _ _ H)].
+Qed.
+
+Theorem build_networks_char mynets pr :
+  h_addrs (hostinfo_of mynets pr) = map fst (p_nets pr) /\
+  (h_networks (hostinfo_of mynets pr) = None <->
+   exists n, p_nets pr = [n] /\ p_unsafe pr = [] /\ any_contains mynets (fst n) = true) /\
+  (forall a, remote_check (hostinfo_of mynets pr) a = None -> remote_authentic_P mynets pr a).
+Proof.
+  split; [reflexivity|split; [|intros a; apply build_networks_sound]].
+  unfold hostinfo_of, simple_case; cbn [h_networks].
+  destruct (p_nets pr) as [|n [|m l]]; destruct (p_unsafe pr) as [|u us];
+    try (split; [discriminate|intros [x [H1 [H2 H3]]]; discriminate]).
+  destruct (any_contains mynets (fst n)) eqn:E.
+  - split; [intros _; exists n; auto|reflexivity].
+  - split; [discriminate|intros [x [H1 [_ H3]]]; inversion H1; subst; congruence].
+Qed.
+
+Lemma add_rules_succeed cf rs : (exists t, add_rules cf rs empty_table = Some t) <-> forallb rule_valid rs = true.
+Proof. apply add_rules_some. Qed.
